@@ -308,7 +308,7 @@ func (g *Generator) generateFlattenFieldUnmarshal(gf *protogen.GeneratedFile, in
 	}
 
 	childMsg := field.Message
-	childTypeName := childMsg.GoIdent.GoName
+	childTypeName := childMsg.GoIdent
 
 	gf.P("// Extract flattened child fields for: ", field.Desc.Name())
 	gf.P("var flat", goName, " *", childTypeName)
